@@ -194,6 +194,7 @@ func runC09(c *an.Ctx) {
 	ruleQ5(c)
 	ruleQ6(c)
 	ruleQ7(c)
+	ruleQ8Q10(c)
 }
 
 func fieldOwner(p *an.Prog, f *types.Var) string {
